@@ -792,6 +792,21 @@ impl HistGen {
         if g.p.w_pke + g.p.w_hdr > 0 {
             g.final_dem_matrix();
         }
+        // epilogue: whatever the history did to the master key, re-encapsulate the last encapsulations under the key it
+        // publishes now, and look at who opens the results (every history ends on the re-encapsulation path: the rights
+        // still recoverable and publishable after all the rotations, disables, deletions and prunes of the history)
+        if g.next_e > 0 && g.next_k > 0 {
+            let k = g.new_k();
+            g.emit(format!("mpk M0 K{k}"));
+            let first = g.next_e.saturating_sub(3);
+            let last = g.next_e;
+            for src in first..last {
+                let e = g.next_e;
+                g.next_e += 1;
+                g.emit(format!("recaps M0 K{k} E{src} E{e}"));
+            }
+            g.emit("matrix".into());
+        }
         g.emit("dump M0".into());
         g.lines
     }
